@@ -98,7 +98,15 @@ def expect (s : String) : P Unit := do
 
 partial def pExpr : P Expr := do
   let t ← next
-  if t.startsWith "c:" then
+  if t.startsWith "cw:" then
+    -- cw:<hex>:<w>: the constant c:<hex> narrowed to w bytes (`Const.WithWidth`); in the model just the low w bytes
+    let cs := t.toList.drop 3
+    let h := cs.takeWhile (· != ':')
+    let w := String.ofList ((cs.dropWhile (· != ':')).drop 1)
+    match parseHexChars h, w.toNat? with
+    | some bs, some n => if n == 0 || n > bs.length then throw s!"bad narrowed const {t}" else pure (.const (bs.take n))
+    | _, _ => throw s!"bad narrowed const {t}"
+  else if t.startsWith "c:" then
     match parseHexChars (t.toList.drop 2) with
     | some bs => pure (.const bs)
     | none => throw s!"bad const {t}"
